@@ -1557,7 +1557,7 @@ class Converter:
                 self._current_fn.append_parameter(onnx_parameter)
                 self._used_vars.add(parameter_name)
                 if _verif.ENABLED:
-                    _verif.emit("converter", "Param", name=x.arg, signature=True)
+                    _verif.emit("converter", "Param", name=onnx_parameter.name, signature=True)
                 self._bind(
                     x.arg,
                     values.SymbolValue(onnx_parameter, self._source_of(x)),
